@@ -111,7 +111,7 @@ func TestC16(t *testing.T) {
 		}
 	}
 	// socket directories whose names contain characters that mean something to a formatter or a shell
-	for _, dn := range []string{"50%off", "a%20b", "100%", "%s%d%v", "with space", "tab\there", "dollar$HOME", "back\\slash", "quote'\"", "ünï-cödé"} {
+	for _, dn := range []string{"50%off", "a%20b", "100%", "%s%d%v", "with space", "tab\there", "dollar$HOME", "back\\slash", "quote'\"", "ünï-cödé", "SYMLINK/.."} {
 		for _, proto := range []string{"netrpc", "grpc"} {
 			for _, mx := range []string{"\x00", "true"} {
 				cases = append(cases, c16case{cookie: cookieVal, cfgKey: cookieKey, cfgVal: cookieVal, proto: proto, tls: "none", mux: mx, dirName: dn})
@@ -158,7 +158,14 @@ func TestC16(t *testing.T) {
 			dir := filepath.Join(base, fmt.Sprintf("c16-%05d", i))
 			os.MkdirAll(dir, 0o755)
 			defer os.RemoveAll(dir)
-			if c.dirName != "" {
+			if c.dirName == "SYMLINK/.." {
+				// the socket directory's path goes through a symbolic link followed by "..": l -> deep/dir, the directory is
+				// l/../s, which the kernel resolves to deep/s (a lexical clean-up would name another place)
+				os.MkdirAll(filepath.Join(dir, "deep", "dir"), 0o755)
+				os.MkdirAll(filepath.Join(dir, "deep", "s"), 0o755)
+				os.Symlink(filepath.Join("deep", "dir"), filepath.Join(dir, "l"))
+				dir = dir + "/l/../s"
+			} else if c.dirName != "" {
 				dir = filepath.Join(dir, c.dirName)
 				os.MkdirAll(dir, 0o755)
 			}
@@ -310,7 +317,13 @@ func TestC16(t *testing.T) {
 							if f[1] != strconv.Itoa(want) {
 								bad("announced version %s, expected %d (highest common, else the lowest served)", f[1], want)
 							}
-							if f[2] != "unix" || !strings.HasPrefix(f[3], dir+"/") {
+							inDir := strings.HasPrefix(f[3], dir+"/")
+							if !inDir { // another spelling of the same place is as good
+								a, e1 := filepath.EvalSymlinks(filepath.Dir(f[3]))
+								b, e2 := filepath.EvalSymlinks(dir)
+								inDir = e1 == nil && e2 == nil && a == b
+							}
+							if f[2] != "unix" || !inDir {
 								bad("address %s|%s is not a unix socket in the socket dir", f[2], f[3])
 							}
 							if f[4] != c.proto {
